@@ -16,7 +16,10 @@ RULE = ("histories of parse requests on ONE DefaultArgsParser.  Pool of requests
         "(quick; thorough adds length 3 over the 41 original requests), seeded random to length 6, a third of them through two+ "
         "CommandConfig objects sharing one parser via set_args_parser / Command.parse.  Each result compared with a fresh parser's; "
         "argv list, RawArgs tokens/option_tokens/script name/text and the format's listings (own and base chain, aliases, command "
-        "options) snapshotted before/after; every Args returned is read again at the end of the history.  Non-trivial = >= 2 "
+        "options) snapshotted before/after; every Args returned is read again at the end of the history.  Next to that the state-"
+        "taking model of Props/C05.v (parse_obj: the maps reset at entry are a parameter) is compared with the real body of parse() "
+        "run with the rebinding of _options / _arguments / both disabled (histories over one format: all pairs of the pool's "
+        "requests on it + random to length 6): model and code must leak alike.  Non-trivial = >= 2 "
         "requests of which >= 1 sets an option; distinct by history")
 TRUSTED = ["'does not alter the list / raw arguments / format it was handed' is about Python aliasing: carried by snapshot comparison (testing)",
            "harness/translate_c05.py: the model's parse starts from empty scratch maps because the source of DefaultArgsParser.parse "
@@ -45,11 +48,15 @@ POOL = [[fi, 0, toks] for fi, toks in LINES] + [[fi, 1, toks] for fi, toks in LI
 # a command option in the format, grouped / glued short options, multi-valued options twice
 CO_FMT = [[G.cname("server", ["srv"]), G.copt("remove", "r", ["rm", "D"]), G.opt("verbose", "v", G.NO_VALUE), G.opt("quiet", "q", G.NO_VALUE),
            G.opt("opt", "o", G.REQ_V, "dflt"), G.arg("a1", G.A_REQ)]]
+WITNESS_FMT = [[G.opt("num", "n", G.REQ_V | G.O_INT), G.arg("port", G.A_OPT | G.A_INT, 80)]]
 MORE = [
     (G.SMALL_FORMATS[33], ["server", "x", "--opt=1", "y"]), (G.SMALL_FORMATS[33], ["srv", "-v", "x"]), (G.SMALL_FORMATS[33], ["-vo1"]),
     (G.SMALL_FORMATS[34], ["server", "add", "--mul", "a", "-lb", "x", "y", "z"]), (G.SMALL_FORMATS[34], ["x", "--mul"]),
     (G.SMALL_FORMATS[28], ["server", "x"]), (G.SMALL_FORMATS[39], ["server", "x"]), (G.SMALL_FORMATS[39], ["x"]),
     (G.SMALL_FORMATS[37], ["-vn5", "x"]), (G.SMALL_FORMATS[37], ["x", "-vl", "a", "-lb", "--", "-v"]),
+    # the witness of Props/C05.v reuse_unfixed_refuted (ReuseWitness.H_opts / H_args): replayed on the real parse() body with the
+    # reset disabled, and on the parser as it is
+    (WITNESS_FMT, ["--num", "5"]), (WITNESS_FMT, []), (WITNESS_FMT, ["8080"]),
     (CO_FMT, ["srv", "-vqoX", "x"]), (CO_FMT, ["-vq", "x"]), (CO_FMT, ["x", "--remove"]), (CO_FMT, ["-vr", "x"]), (CO_FMT, ["-qvo"]),
 ]
 
@@ -143,8 +150,36 @@ def gen(rng, tier, info):
             n_via += 1
         else:
             cases.append(mk_case([rng.choice(pool) for _ in range(k)], rng.randrange(3)))
+    # the state-taking model (Model/Parser.v parse_from / parse_obj; Props/C05.v reuse_unfixed_refuted) against the real body
+    # of parse() with the rebinding of a scratch map at entry DISABLED: 1 = only _arguments reset (the code before the
+    # repair), 2 = only _options, 3 = none.  Here re-use is expected to differ from fresh - model and code must leak alike.
+    # Histories over ONE format (any lines, both modes): what one format leaves in the maps has the shape the same format
+    # expects; across formats the code meets shapes (a text where a list is expected) the model does not describe.
+    n_unreset = 0
+    by_fmt = {}
+    for r in pool:
+        by_fmt.setdefault(json.dumps(r[0], sort_keys=True), []).append(r)
+    groups = sorted(by_fmt.values(), key=lambda g: -len(g))
+    def kinds(g):
+        # a leftover CommandName object in _arguments is a value the model writes as its name (Parser.v flatten): formats
+        # with command names only with _arguments reset
+        return (1,) if G.fmt_cnames(g[0][0]) else (1, 2, 3)
+    for g in groups:
+        for a in g:
+            for b in g:
+                for r in kinds(g):
+                    c = mk_case([a, b], 0)
+                    c["resets"] = r
+                    cases.append(c)
+                    n_unreset += 1
+    for i in range(nrand // 3):
+        g = rng.choice(groups[:12])
+        c = mk_case([rng.choice(g) for _ in range(rng.randint(3, 6))], 0)
+        c["resets"] = rng.choice(kinds(g))
+        cases.append(c)
+        n_unreset += 1
     info["exhaustive"] = True
-    info["distribution"] = {"pool": len(pool), "pool_original_requests": core, "pool_formats": len(set(json.dumps(r[0], sort_keys=True) for r in pool)),
+    info["distribution"] = {"pool": len(pool), "histories_on_a_parser_with_a_reset_disabled": n_unreset, "pool_original_requests": core, "pool_formats": len(set(json.dumps(r[0], sort_keys=True) for r in pool)),
                             "pool_lenient": sum(1 for r in pool if r[1]), "exhaustive": n_ex, "random": nrand, "max_len_exhaustive": depth,
                             "through_shared_parser_of_command_configs": n_via}
     return cases
@@ -155,13 +190,15 @@ def case_fmts(c):
 
 
 def wire(c):
-    return [[G.wire_levels(f) for f in case_fmts(c)], [[r[0], r[1], [S(t) for t in r[2]]] for r in c["reqs"]], [S(x) for x in EXTRA]]
+    w = [[G.wire_levels(f) for f in case_fmts(c)], [[r[0], r[1], [S(t) for t in r[2]]] for r in c["reqs"]], [S(x) for x in EXTRA]]
+    return w + [c["resets"]] if c.get("resets") else w
 
 
 def describe(c):
     fm = case_fmts(c)
     used = sorted(set(r[0] for r in c["reqs"]))
-    how = "commands sharing one parser (set_args_parser): " if c.get("via") else \
+    how = ("one parser whose parse() does not reset %s: " % {1: "_options", 2: "_arguments", 3: "_arguments/_options"}[c["resets"]]) if c.get("resets") else \
+          "commands sharing one parser (set_args_parser): " if c.get("via") else \
           {0: "one parser: ", 1: "one parser, one format object per format: ", 2: "one parser, every object kept: "}[c.get("share", 0)]
     return how + "; ".join("fmt#%d %s %r" % (r[0], "lenient" if r[1] else "strict", r[2]) for r in c["reqs"]) + \
         " where " + "; ".join("fmt#%d = %s" % (i, G.fmt_shape(fm[i])) for i in used)
@@ -225,10 +262,37 @@ def source_resets_at_entry():
     return _SOURCE_FACT[0]
 
 
+_UNRESET = {}
+
+
+def unreset_class(r):
+    """DefaultArgsParser whose parse() runs the real body but can no longer rebind self._options (r = 1), self._arguments
+    (r = 2) or either (r = 3): the attribute becomes a property that keeps the object created by __init__ and ignores later
+    assignments.  (translate_c05 checks that parse entry and __init__ are the only places that rebind them.)"""
+    if r not in _UNRESET:
+        from clikit.args import DefaultArgsParser
+
+        def sticky(slot):
+            def get(self):
+                return self.__dict__[slot]
+
+            def set_(self, v):
+                if slot not in self.__dict__:
+                    self.__dict__[slot] = v
+            return property(get, set_)
+        ns = {}
+        if r in (2, 3):
+            ns["_arguments"] = sticky("_kept_arguments")
+        if r in (1, 3):
+            ns["_options"] = sticky("_kept_options")
+        _UNRESET[r] = type("UnresetParser%d" % r, (DefaultArgsParser,), ns)
+    return _UNRESET[r]
+
+
 def run_impl(c):
     from clikit.args import DefaultArgsParser, ArgvArgs
     from hutil import err
-    shared = DefaultArgsParser()
+    shared = unreset_class(c["resets"])() if c.get("resets") else DefaultArgsParser()
     fmts = case_fmts(c)
     share = c.get("share", 0)
     out, fresh_out, untouched, reread = [], [], 1, 1
@@ -284,6 +348,9 @@ def canon_model_w(c, w):
 
 
 def oracle(c, o):
+    if c.get("resets"):
+        # a deliberately broken parser: nothing to demand of it; the model (parse_obj) must predict what it does
+        return None
     if not o[3]:
         return "parse-altered-its-inputs"
     if len(o) > 4 and not o[4]:
@@ -299,7 +366,7 @@ def oracle(c, o):
 
 def nontrivial_key(c, o):
     if len(c["reqs"]) >= 2 and any(any(t.startswith("-") and t != "--" for t in r[2]) for r in c["reqs"]):
-        return [c.get("fmts"), c["reqs"], c.get("share", 0), c.get("via", 0)]
+        return [c.get("fmts"), c["reqs"], c.get("share", 0), c.get("via", 0), c.get("resets", 0)]
     return None
 
 
